@@ -2,9 +2,10 @@
 M-merge: how the workspace-wide table of globals chooses among several files that define the same
 global (check_third_file.go generateAllGlobalMaps + results/third_result.go
 JudgeShouldInsertGlobalInfo / InsertThirdGlobalGMaps / FindThirdGlobalGInfo).
-Files are visited in Go map-iteration order; a candidate is appended to the name's list unless an
-already listed candidate of ANOTHER file has a smaller function level, or a smaller scope level, or a
-line number that is not larger; look-ups take the LAST listed candidate.
+Files are visited in the order of their names (sort.Strings over the keys of the file map; before the
+repair: in Go map-iteration order); a candidate is appended to the name's list unless an already listed
+candidate of ANOTHER file has a smaller function level, or a smaller scope level, or a line number that is
+not larger; look-ups take the LAST listed candidate.
 Core Lean only.
 -/
 namespace LuaHelper.Merge
@@ -38,5 +39,13 @@ def dominatesB (m x : Cand) : Bool := m.funcLv ≤ x.funcLv && m.scopeLv ≤ x.s
 
 /-- the candidate that dominates all others, if there is one -/
 def dominantOf (l : List Cand) : Option Cand := l.find? fun m => l.all fun x => x == m || dominatesB m x
+
+/-- the visiting order: the files sorted by name -/
+def byFile (a b : Cand) : Bool := decide (a.file ≤ b.file)
+
+def sortedVisit (cands : List Cand) : List Cand := cands.mergeSort byFile
+
+/-- the definition every file is linked to: the winner of the sorted visit -/
+def winnerSorted (cands : List Cand) : Option Cand := winner (sortedVisit cands)
 
 end LuaHelper.Merge
